@@ -9,7 +9,7 @@ import (
 func init() {
 	slip.Define(
 		func(args slip.List) slip.Object {
-			f := Progn{Function: slip.Function{Name: "progn", Args: args}}
+			f := Progn{Function: slip.Function{Name: "progn", Args: args, SkipEval: []bool{true}}}
 			f.Self = &f
 			return &f
 		},
@@ -39,8 +39,14 @@ type Progn struct {
 
 // Call the function with the arguments provided.
 func (f *Progn) Call(s *slip.Scope, args slip.List, depth int) (result slip.Object) {
-	if 0 < len(args) {
-		result = args[len(args)-1]
+	d2 := depth + 1
+	for i := range args {
+		// The values of the last form, all of them, are the values of progn.
+		result = slip.EvalArg(s, args, i, d2)
+		if _, exit := result.(slip.NonLocalExit); exit {
+			// return-from, return or go: control is leaving.
+			return
+		}
 	}
 	return
 }
